@@ -279,9 +279,12 @@ namespace sim
         ++tt.violations;
       else
         ++tt.foreign;
-      std::printf ("VIOL %s %s %llu %s props=%u mine=%d at=%d :: %s\n", uname, jb.mode.c_str (),
-                   static_cast<unsigned long long> (seed), g.v_oracle.c_str (), g.v_props,
-                   mine ? 1 : 0, at_op, g.v_msg.c_str ());
+      const char *kname = (0 <= at_op && static_cast<std::size_t> (at_op) < hist.size ())
+                            ? op_name (engine_t::remap_kind (hist[static_cast<std::size_t> (at_op)].kind))
+                            : "teardown";
+      std::printf ("VIOL %s %s %llu %s props=%u mine=%d at=%d kind=%s :: %s\n", uname,
+                   jb.mode.c_str (), static_cast<unsigned long long> (seed), g.v_oracle.c_str (),
+                   g.v_props, mine ? 1 : 0, at_op, kname, g.v_msg.c_str ());
       std::printf ("H world %u %u %d\n", idbits, e.cfg.valmod, e.cfg.stream_faults ? 1 : 0);
       for (std::size_t i = 0; i < hist.size (); ++i)
         std::printf ("H %s\n", op_to_text (hist[i]).c_str ());
